@@ -39,6 +39,31 @@ fn quiescence_timeout() -> Duration {
     Duration::from_secs(std::env::var("VERIF_C01_TIMEOUT_S").ok().and_then(|v| v.parse().ok()).unwrap_or(60))
 }
 
+/// A panic of any thread other than `main` (i.e. a node thread) is recorded here by a panic hook, so
+/// that a dead pipeline is reported at once, with its cause, instead of after the 60 s timeout.
+/// (Nothing is caught: the thread still dies and the default hook still prints the backtrace.)
+static NODE_PANIC: Mutex<Option<String>> = Mutex::new(None);
+
+fn install_panic_hook() {
+    let prev = std::panic::take_hook();
+    std::panic::set_hook(Box::new(move |info| {
+        let name = std::thread::current().name().unwrap_or("?").to_string();
+        if name != "main" {
+            let loc = info.location().map(|l| format!("{}:{}", l.file(), l.line())).unwrap_or_default();
+            let p = info.payload();
+            let msg = p.downcast_ref::<&str>().map(|s| s.to_string()).or_else(|| p.downcast_ref::<String>().cloned()).unwrap_or_default();
+            if let Ok(mut g) = NODE_PANIC.lock() {
+                g.get_or_insert(format!("thread `{name}` panicked at {loc}: {msg}"));
+            }
+        }
+        prev(info);
+    }));
+}
+
+fn node_panic() -> Option<String> {
+    NODE_PANIC.lock().ok().and_then(|g| g.clone())
+}
+
 // ------------------------------------------------------------------------------------------------
 // callbacks
 // ------------------------------------------------------------------------------------------------
@@ -279,6 +304,10 @@ struct CaseRun {
 impl CaseRun {
     fn start(dir: &Path, consensus: &ckb_chain_spec::consensus::Consensus, cfg: &NodeCfg, threads: usize) -> CaseRun {
         let _ = std::fs::remove_dir_all(dir);
+        // the dead node of an earlier case (if any) is forgotten
+        if let Ok(mut g) = NODE_PANIC.lock() {
+            *g = None;
+        }
         let node = Node::start(dir, consensus.clone(), cfg);
         // The start-up scan (`InitLoadUnverified`, its own thread) re-delivers, without callback,
         // every stored block that has no ext. It must have finished before the first delivery (the
@@ -354,6 +383,11 @@ impl CaseRun {
         let start = Instant::now();
         let mut step = Duration::from_micros(200);
         loop {
+            // a panicking node thread drops the callback it holds (recorded as `drop`), so the
+            // counters below could balance on a dead pipeline: look at the recorded panic first
+            if let Some(p) = node_panic() {
+                return Err(format!("a node thread died: {p}"));
+            }
             let (fired, dropped) = {
                 let l = self.log.lock().unwrap();
                 (l.fired, l.dropped)
@@ -888,8 +922,8 @@ fn gen_order(rng: &mut Rng, t: &TreeSpec) -> Vec<usize> {
 fn generate(out: &mut Out, opts: &Opts, builder_base: &Path, node_base: &Path) {
     let mut rng = Rng::new(opts.seed);
     // measured: a tree costs ~0.4 s CPU to build (one RocksDB open per branch of the builder), a case
-    // ~0.2 s (node start); quick = 20 trees x 3 orders = 60 cases, thorough = 250 x 6 = 1500 cases
-    let (trees, orders) = if opts.thorough() { (250 * opts.scale, 6) } else { (20 * opts.scale, 3) };
+    // ~0.2 s (node start); quick = 20 trees x 3 orders = 60 cases, thorough = 100 x 6 = 600 cases (250 x 6 took 17.7 min on the loaded machine)
+    let (trees, orders) = if opts.thorough() { (100 * opts.scale, 6) } else { (20 * opts.scale, 3) };
     let t0 = Instant::now();
     let mut cases = 0u64;
     let (mut t_build, mut t_start, mut t_ops, mut t_stop) = (Duration::ZERO, Duration::ZERO, Duration::ZERO, Duration::ZERO);
@@ -1147,6 +1181,7 @@ pub fn run(opts: &Opts) {
         let _ = ckb_logger::internal::set_logger(&STDERR_LOG);
         ckb_logger::internal::set_max_level(if l == "debug" { ckb_logger::internal::LevelFilter::Debug } else { ckb_logger::internal::LevelFilter::Info });
     }
+    install_panic_hook();
     let mut out = Out::new(&opts.out);
     let builder_base = scratch_dir(&opts.out, "c01-b");
     let node_base = scratch_dir(&opts.out, "c01-n");
